@@ -27,8 +27,17 @@ def plan(tier, seed):
 def gen_pair(fggs, rng, mode):
     """returns (g1, g2, meta)"""
     A, B = fggs.NodeLabel('A'), fggs.NodeLabel('B')
+    pre1 = pre2 = ()
     if mode == 'name-clash':
         n1, n2 = ['S', 'X', 'X,Y'], ['T', 'Y,Z', 'Z']
+    elif mode == 'name-clash-3':
+        # three pairs concatenate to <X,Y,Z,W>: the name has to be made unique twice
+        n1, n2 = ['S', 'X', 'X,Y', 'X,Y,Z'], ['T', 'Y,Z,W', 'Z,W', 'W']
+    elif mode == 'name-clash-existing':
+        # the clash of 'name-clash' plus labels that already carry the paired name / its first alternative
+        n1, n2 = ['S', 'X', 'X,Y'], ['T', 'Y,Z', 'Z']
+        pre1 = ('<X,Y,Z>',) if rng.random() < 0.7 else ('<X,Y,Z>', '<X,Y,Z>_1')
+        pre2 = ('<X,Y,Z>_1',) if rng.random() < 0.3 else ()
     elif mode == 'terminal-named-like-pair':
         n1, n2 = ['S', 'X', 'Y'], ['T', 'P', 'Q']
     else:
@@ -36,51 +45,70 @@ def gen_pair(fggs, rng, mode):
     same_names = mode == 'same-nt-names'
     if same_names:
         n2 = ['S'] + n1[1:]
-    # skeletons: arity 0 (for start symbols) and arity 1 over A
+    # arity of the k-th nonterminal (shared by both grammars so that rules can pair up): the first
+    # is unary; later ones unary or binary over (A, A)
+    nt_arity = [0, 1] + [rng.choice([1, 2, 2]) for _ in range(3)]
+    # skeletons: arity 0 (for start symbols), 1 and 2 over A
     skels = []
-    for k in range(rng.randint(3, 6)):
-        ar = 0 if k < 2 else rng.choice([0, 1, 1])
+    for k in range(rng.randint(3, 7)):
+        ar = 0 if k < 2 else rng.choice([0, 1, 1, 2, 2])
         nn = rng.randint(max(1, ar), 3)
-        labels = [A] + [rng.choice([A, B]) for _ in range(nn - 1)]
+        labels = [A] * max(1, ar) + [rng.choice([A, B]) for _ in range(nn - max(1, ar))]
         nodes = [fggs.Node(l, id=f's{k}n{i}') for i, l in enumerate(labels)]
-        ext = [nodes[0]] if ar else []
+        ext = nodes[:ar]
         a_nodes = [n for n in nodes if n.label == A]
-        slots = [(f's{k}e{j}', rng.choice(a_nodes)) for j in range(rng.choice([0, 1, 1, 2, 2]))]
+        slots = []
+        for j in range(rng.choice([0, 1, 1, 2, 2])):
+            sar = rng.choice([1, 1, 2])
+            slots.append((f's{k}e{j}', tuple(rng.choice(a_nodes) for _ in range(sar))))
         skels.append(dict(k=k, nodes=nodes, ext=ext, slots=slots, arity=ar))
-    # a skeleton variant with the same nodes but another external list / another slot attachment (must not be conjoinable)
-    if rng.random() < 0.5:
+    # skeleton variants with the same nodes that must NOT be conjoinable with their base: another external node,
+    # the same external nodes in another order, a slot attached elsewhere or with its attachments swapped
+    for _ in range(rng.choice([0, 1, 1, 2])):
         base = rng.choice(skels)
-        if len([n for n in base['nodes'] if n.label == A]) >= 2:
-            alt_ext = [[n for n in base['nodes'] if n.label == A][1]]
-            skels.append(dict(base, k=f"{base['k']}x", ext=alt_ext if base['arity'] else base['ext'], arity=base['arity'],
-                              slots=[(sid, [n for n in base['nodes'] if n.label == A][-1]) for sid, _ in base['slots']]))
+        a_nodes = [n for n in base['nodes'] if n.label == A]
+        kind = rng.choice(['ext-other', 'ext-order', 'slot-other', 'slot-order'])
+        alt = dict(base, k=f"{base['k']}x{kind}")
+        if kind == 'ext-other' and base['arity'] == 1 and len(a_nodes) >= 2:
+            alt['ext'] = [a_nodes[1]]
+        elif kind == 'ext-order' and base['arity'] == 2:
+            alt['ext'] = list(reversed(base['ext']))
+        elif kind == 'slot-other' and base['slots'] and len(a_nodes) >= 2:
+            alt['slots'] = [(sid, tuple(a_nodes[-1] if n is a_nodes[0] else a_nodes[0] for n in att)) for sid, att in base['slots']]
+        elif kind == 'slot-order' and any(len(att) == 2 and att[0] is not att[1] for _, att in base['slots']):
+            alt['slots'] = [(sid, tuple(reversed(att))) for sid, att in base['slots']]
+        else:
+            continue
+        skels.append(alt)
     shared_t = fggs.EdgeLabel('shared', [A], is_terminal=True)
 
-    def build(names, prefix, tname):
+    def build(names, prefix, tname, pre):
         g = fggs.HRG(fggs.EdgeLabel(names[0], [], is_nonterminal=True))
         nts = {names[0]: fggs.EdgeLabel(names[0], [], is_nonterminal=True)}
-        for nm in names[1:]:
-            nts[nm] = fggs.EdgeLabel(nm, [A], is_nonterminal=True)
+        for i, nm in enumerate(names[1:], 1):
+            nts[nm] = fggs.EdgeLabel(nm, [A] * nt_arity[i], is_nonterminal=True)
             g.add_edge_label(nts[nm])
-        ar1 = [nts[nm] for nm in names[1:]]
+        for nm in pre:       # labels that merely exist in the grammar
+            g.add_edge_label(fggs.EdgeLabel(nm, [A], is_terminal=True))
+        by_ar = {}
+        for nm in names[1:]:
+            by_ar.setdefault(nts[nm].arity, []).append(nts[nm])
         rid = 0
         for nm, lhs in nts.items():
-            cands = [s for s in skels if s['arity'] == lhs.arity]
+            cands = [s for s in skels if s['arity'] == lhs.arity and all(len(att) in by_ar for _, att in s['slots'])]
             if not cands:
                 continue
             for s in rng.sample(cands, min(len(cands), rng.randint(1, 3))):
                 for rep in range(rng.choice([1, 1, 2])):
-                    if s['slots'] and not ar1:
-                        continue
                     rhs = fggs.Graph()
                     for n in s['nodes']:
                         rhs.add_node(n)
                     rhs.ext = s['ext']
-                    pending = [('nt', sid, node) for sid, node in s['slots']] + [('t', j, None) for j in range(rng.choice([0, 1, 1, 2]))]
+                    pending = [('nt', sid, att) for sid, att in s['slots']] + [('t', j, None) for j in range(rng.choice([0, 1, 1, 2]))]
                     rng.shuffle(pending)          # insertion order of the edges differs from the order of their ids
-                    for kind, sid, node in pending:
+                    for kind, sid, att in pending:
                         if kind == 'nt':
-                            rhs.add_edge(fggs.Edge(rng.choice(ar1), [node], id=sid))
+                            rhs.add_edge(fggs.Edge(rng.choice(by_ar[len(att)]), list(att), id=sid))
                             continue
                         j = sid
                         node = rng.choice(s['nodes'])
@@ -92,9 +120,9 @@ def gen_pair(fggs, rng, mode):
                     g.add_rule(fggs.HRGRule(lhs, rhs))
                     rid += 1
         return g
-    g1 = build(n1, 'g1', 't')
-    g2 = build(n2, 'g2', 'u')
-    meta = dict(mode=mode, n1=n1, n2=n2)
+    g1 = build(n1, 'g1', 't', pre1)
+    g2 = build(n2, 'g2', 'u', pre2)
+    meta = dict(mode=mode, n1=n1, n2=n2, pre=[list(pre1), list(pre2)], variants=[str(s['k']) for s in skels if isinstance(s['k'], str)])
     if mode == 'terminal-named-like-pair':
         # a terminal literally called like a paired nonterminal
         nm = f'<{n1[1]},{n2[1]}>'
@@ -165,7 +193,7 @@ def run_case(tier, seed, index, spec=None):
     rng = G.rng_for(seed, 'C17', tier, index)
     viols = []
     obs = dict(conjoin_calls=0, conjoined_rules_checked=0, pairs_considered=0, derivations_compared=0, enumeration_capped=0, terminal_conflicts_expected=0)
-    modes = ['plain', 'plain', 'plain', 'same-nt-names', 'name-clash', 'terminal-named-like-pair', 'terminal-conflict']
+    modes = ['plain', 'plain', 'plain', 'same-nt-names', 'name-clash', 'terminal-named-like-pair', 'terminal-conflict', 'plain', 'name-clash-3', 'name-clash-existing']
     mode = modes[index % len(modes)]
     g1, g2, meta = gen_pair(fggs, rng, mode)
     snap1, snap2 = str(g1), str(g2)
@@ -185,7 +213,7 @@ def run_case(tier, seed, index, spec=None):
         out = C.call(fggs.conjoin_hrgs, g1, g2)
         hooks = dict(h.count)
     obs['conjoin_calls'] += 1
-    feats = [mode]
+    feats = [mode] + sorted({'variant-' + v.split('x', 1)[1] for v in meta['variants']})
     if mode == 'terminal-conflict':
         obs['terminal_conflicts_expected'] += 1
         if out['ok']:
@@ -324,7 +352,8 @@ def finalize(tot, tier, seed):
             inc.append(f'{k} never observed')
     if tot['obs'].get('enumeration_capped', 0) > 0.5 * tot['evaluated']:
         inc.append('derivation enumeration hit its cap in more than half of the cases')
-    for f in ('plain', 'same-nt-names', 'name-clash', 'terminal-named-like-pair', 'terminal-conflict'):
+    for f in ('plain', 'same-nt-names', 'name-clash', 'name-clash-3', 'name-clash-existing', 'terminal-named-like-pair', 'terminal-conflict',
+              'variant-ext-other', 'variant-ext-order', 'variant-slot-other', 'variant-slot-order'):
         if tot['features'].get(f, 0) == 0:
             inc.append(f'class {f} never generated')
     return {}, inc
